@@ -1,13 +1,26 @@
 #!/bin/sh
-# Build the framework offline from files on disk: table sweep from /repo, full .vo build, extraction, OCaml driver.
+# Build the framework offline from files on disk: table sweep from /repo, full .vo build of everything the
+# registered checks need (Properties/<id>.vo, the extraction files of their models and all dependencies),
+# OCaml drivers.  Files of checks that are not registered in MANIFEST.json are built too but cannot fail setup.
 cd "$(dirname "$0")" || exit 2
 PYTHONPATH=/verif:/repo/src PYTHONHASHSEED=0 PYTHONDONTWRITEBYTECODE=1 exec /venv/bin/python - <<'PY'
-import sys
+import json, sys
 from harness import common
-r = common.build(None)
-print(r.log[-3000:])
-bad = common.scan_forbidden()
+reg = json.load(open(common.VERIF / "harness" / "registry.json"))
+ok = True
+models = sorted({m for ms in reg.values() for m in ms})
+targets = [f"theories/Properties/{pid}.vo" for pid in reg]
+r = common.build("SETUP", models=tuple(models), extra_targets=tuple(targets), timeout=3000)
+print(r.log[-2000:])
+if not r.ok:
+    print("SETUP FAILED at", r.failed_file)
+    ok = False
+bad = common.scan_forbidden(common.dep_closure([f"Properties/{pid}.v" for pid in reg]))
 if bad:
     print("forbidden constructs:", bad)
-sys.exit(0 if r.ok and not bad else 1)
+    ok = False
+# best effort: everything else (work in progress of unregistered checks); never fails setup
+r2 = common.build(None, timeout=3000)
+print("full build of all theories:", "ok" if r2.ok else f"incomplete ({r2.failed_file})")
+sys.exit(0 if ok else 1)
 PY
